@@ -256,6 +256,9 @@ def judge(module, cases, cfg=None, workers=8, timeout=3600, heap="8g", chunk=Non
                                  % (module, len(got), len(part), missing, r["out"][-3000:]))
         for k, v in got.items():
             verdicts[idmap[k]] = v
+        for rec in records(r["out"], "DRIFT"):
+            # <<"DRIFT", tid, clause, pos>>
+            stats.setdefault("drift", []).append((idmap.get(rec[1], rec[1]),) + tuple(rec[2:]))
         stats["states"] += r.get("distinct", 0)
         stats["transitions"] += r.get("generated", 0)
         stats["wall_s"] += r["wall_s"]
